@@ -1559,7 +1559,7 @@ def shallow_parse_input_query(query_text, input_iterator, tables_registry, query
     if UPDATE in rb_actions:
         update_expression = translate_update_expression(rb_actions[UPDATE]['text'], input_variables_map, string_literals)
         query_context.update_expressions = combine_string_literals(update_expression, string_literals)
-        query_context.writer.set_header(input_header)
+        query_context.writer.set_header(None if input_header is None else list(input_header)) # Copy: the writer may normalize the list it is given in place
 
 
     if SELECT in rb_actions:
